@@ -179,3 +179,13 @@ PLANS["C16"] = dict(kind="func", stages=[dict(gen=dict(quick=[("ConfigGrid.tla",
                     required_facts=["C16:accepted", "C16:rejected", "C16:auto-discover", "C16:documented-key", "C16:rejected-thresholds", "C16:rejected-removal-rates", "C16:rejected-grace-periods",
                                     "C16:rejected-cool-down", "C16:rejected-min-max", "C16:rejected-taint-effect", "C16:rejected-lifecycle", "C16:rejected-max-node-age"],
                     assumptions=FUNC_ASSUMPTIONS + ["the decode half is a differential test (YAML vs JSON vs intent) driven by TLC-generated cases; documented keys are those of the example block of docs/configuration/nodegroup.md"])
+
+PLANS["C12"] = ctl(["multi"], ["multi"],
+                   [D("mix", groups=3, faults=25), D("reap", groups=3, faults=25, odd=True)],
+                   [D("mix", n=60, steps=100, procs=8, groups=3, faults=25), D("reap", n=60, steps=100, procs=8, groups=3, faults=25, odd=True)],
+                   "model: random behaviours (TLC simulation) of the two-group model incl. the group named default, with the isolation invariant (blanking or dry-flipping one group "
+                   "leaves the other group's outcomes unchanged) on every visited state; real code: scans of 2-3 group histories (targets of every call; later groups processed after a failure) "
+                   "and twin runs of each history without the environment events of one group; non-trivial: a multi-group scan / a compared twin scan",
+                   ["C12:multi-group", "C12:failure-before-last-group", "C12:default-group", "C12:twin-compared", "C12:twin-other-group-acts"])
+PLANS["C12"]["iso_drives"] = dict(quick=[D("mix", n=14, steps=80, procs=4)], thorough=[D("mix", n=60, steps=100, procs=8), D("reap", n=40, steps=100, procs=8)])
+PLANS["C11"]["families"] = dict(quick=["dry", "multidry"], thorough=["dry", "multidry"])
